@@ -51,6 +51,12 @@ func wirePool(a *aspec.ASpec) {
 	for _, t := range wireTypes {
 		a.Schemas = append(a.Schemas, aspec.NamedSchema{Name: "Ref" + strings.Title(t), Schema: aspec.Schema{K: t}})
 	}
+	// header components whose keys coincide with header names used elsewhere for other declarations
+	a.Headers = append(a.Headers,
+		aspec.NamedHeader{Name: "Location", Header: aspec.Header{Name: "Location", Req: true, Schema: aspec.Schema{K: "int32"}}},
+		aspec.NamedHeader{Name: "LocationHint", Header: aspec.Header{Name: "Location", Schema: str}},
+		aspec.NamedHeader{Name: "Age", Header: aspec.Header{Name: "Age", Req: true, Schema: aspec.Schema{K: "datetime"}}},
+		aspec.NamedHeader{Name: "AgeSeconds", Header: aspec.Header{Name: "Age", Schema: i64}})
 	a.RequestBodies = append(a.RequestBodies, aspec.NamedBody{Name: "PooledBody", Body: aspec.Body{K: "json", Schema: &aspec.Schema{K: "ref", To: "Thing"}, Req: true}},
 		aspec.NamedBody{Name: "PooledInline", Body: aspec.Body{K: "json", Schema: func() *aspec.Schema {
 			o := objSchema(aspec.Prop{Name: "label", Schema: str, Req: true}, aspec.Prop{Name: "n", Schema: aspec.Schema{K: "int32"}})
@@ -116,8 +122,25 @@ func randSchemaBody(rng *rand.Rand) aspec.Body {
 	return aspec.Body{K: "raw", Media: rawMedia[rng.Intn(len(rawMedia))]}
 }
 
-func randHeaders(rng *rand.Rand) []aspec.Header {
-	var out []aspec.Header
+func randHeaders(a *aspec.ASpec, rng *rand.Rand) (out []aspec.Header) {
+	defer func() {
+		// now and then a header that is a $ref to components.headers; the key of a header component and the name a
+		// response gives the header are unrelated (wirePool: the component "Location" is not what "Location" refers to)
+		has := false
+		for _, nh := range a.Headers {
+			has = has || nh.Name == "LocationHint"
+		}
+		if !has || rng.Intn(4) != 0 {
+			return
+		}
+		add := []aspec.Header{{Name: "Location", Ref: "LocationHint"}, {Name: "X-Loc", Ref: "Location"}, {Name: "Age", Ref: "AgeSeconds"}, {Name: "X-Since", Ref: "Age"}}[rng.Intn(4)]
+		for _, h := range out {
+			if http.CanonicalHeaderKey(h.Name) == http.CanonicalHeaderKey(add.Name) {
+				return
+			}
+		}
+		out = append(out, add)
+	}()
 	names := []string{"X-Next", "x-count", "X-When", "X-Flag", "X-List"}
 	rng.Shuffle(len(names), func(i, j int) { names[i], names[j] = names[j], names[i] })
 	for _, n := range names[:rng.Intn(3)] {
@@ -223,7 +246,7 @@ func randWireOp(a *aspec.ASpec, k int, rng *rand.Rand) wireOp {
 	rng.Shuffle(len(statuses), func(i, j int) { statuses[i], statuses[j] = statuses[j], statuses[i] })
 	op.Responses = nil
 	for _, st := range statuses[:1+rng.Intn(4)] {
-		r := aspec.Response{Desc: "r " + st, Headers: randHeaders(rng), Body: randSchemaBody(rng)}
+		r := aspec.Response{Desc: "r " + st, Headers: randHeaders(a, rng), Body: randSchemaBody(rng)}
 		if k%7 == 5 && r.Body.K == "json" && !a.NoComposite {
 			r.Body = randCompositeBody(a, rand.New(rand.NewSource(int64(k)*104729+rng.Int63n(1000))))
 		}
@@ -327,6 +350,7 @@ func respCfg(a *aspec.ASpec, rr aspec.RespRef) map[string]any {
 			for _, nh := range a.Headers {
 				if nh.Name == h.Ref {
 					hs = nh.Header.Schema
+					h.Req = nh.Header.Req // a $ref has no siblings: the component decides
 				}
 			}
 		}
